@@ -12,6 +12,8 @@ RULE = ("same program generator as C01, additionally with ignore_errors toggled 
         "completed with >= 1 allocating operator; distinct by program digest. Cell sweep: every (operation x "
         "operand-type combination) x a fixed pool of in/out-of-domain operands x modes {normal, ignore_errors, guard 0, "
         "guard 1, guard 1 around 0, guard 0 around 1}; there non-trivial = non-normal mode and the operation allocated a witness.")
+RULE += " Extensions (seeded rounds 10-15): deterministic chains (as they are and with errors ignored), unpacked records, copies."
+
 
 
 class Checker:
